@@ -28,7 +28,7 @@
    (c04_selector_F11b_exact_*, c04_selector_F11c_exact_full).  Current tree: c04_warp_mech_aligned. *)
 From Coq Require Import List ZArith QArith Qround Qabs Bool.
 Import ListNotations.
-From SV Require Import C04.Geometry C04.Lemmas C04.Lemmas2 C04.Lemmas3.
+From SV Require Import C04.Geometry C04.Lemmas C04.Lemmas2 C04.Lemmas3 C04.Lemmas4.
 Open Scope Q_scope.
 
 (* --- predicates defined in Lemmas.v, restated ---------------------------- *)
@@ -66,6 +66,75 @@ Theorem c04_sizematcher_exact_size : forall H W mh mw r,
   Qabs (zq (sm_tw r) - zq W * sm_eff r) <= 1 # 2.
 Proof. exact sizematcher_spec. Qed.
 Print Assumptions c04_sizematcher_exact_size.
+
+(* the returned effective scale IS min(max_h / H, max_w / W), in both branches of the function (the
+   early return has eff = 1 = both ratios): never above either ratio, equal to one of them *)
+Theorem c04_sizematcher_eff_is_min_ratio : forall H W mh mw r,
+  (0 < H)%Z -> (0 < W)%Z -> (0 < dflt H mh)%Z -> (0 < dflt W mw)%Z ->
+  sizematcher H W mh mw = Some r ->
+  let hr := zq (dflt H mh) / zq H in let wr := zq (dflt W mw) / zq W in
+  sm_eff r <= hr /\ sm_eff r <= wr /\ (sm_eff r == hr \/ sm_eff r == wr).
+Proof. exact sizematcher_eff_min. Qed.
+Print Assumptions c04_sizematcher_eff_is_min_ratio.
+
+(* eff_scale = 1 is returned only when nothing was resized (contrapositive: a resized image never
+   comes with scale 1, so the callers' `instances * eff_scale` moves the keypoints with it) *)
+Theorem c04_sizematcher_scale_one_not_resized : forall H W mh mw r,
+  sizematcher H W mh mw = Some r -> sm_eff r == 1 -> sm_th r = H /\ sm_tw r = W.
+Proof. exact sizematcher_eff_one. Qed.
+Print Assumptions c04_sizematcher_scale_one_not_resized.
+
+(* TIE max_h / H = max_w / W (the image has exactly the aspect ratio of the target; up- or
+   down-scaling): eff is the common ratio, BOTH fitted sides land exactly on their maxima (no padding),
+   and eff = 1 exactly when the image already has the requested size *)
+Theorem c04_sizematcher_tie : forall H W mh mw r,
+  (0 < H)%Z -> (0 < W)%Z -> (0 < dflt H mh)%Z -> (0 < dflt W mw)%Z ->
+  sizematcher H W mh mw = Some r ->
+  zq (dflt H mh) / zq H == zq (dflt W mw) / zq W ->
+  sm_eff r == zq (dflt H mh) / zq H /\ sm_eff r == zq (dflt W mw) / zq W /\
+  sm_th r = dflt H mh /\ sm_tw r = dflt W mw /\ sm_oh r = dflt H mh /\ sm_ow r = dflt W mw /\
+  (sm_eff r == 1 <-> (H = dflt H mh /\ W = dflt W mw)).
+Proof. exact sizematcher_tie. Qed.
+Print Assumptions c04_sizematcher_tie.
+
+Theorem c04_sizematcher_tie_resized_not_one : forall H W mh mw r,
+  (0 < H)%Z -> (0 < W)%Z -> (0 < dflt H mh)%Z -> (0 < dflt W mw)%Z ->
+  sizematcher H W mh mw = Some r ->
+  zq (dflt H mh) / zq H == zq (dflt W mw) / zq W ->
+  (H <> dflt H mh \/ W <> dflt W mw) -> ~ sm_eff r == 1.
+Proof. exact sizematcher_tie_resized_not_one. Qed.
+Print Assumptions c04_sizematcher_tie_resized_not_one.
+
+(* registration in the tie: no size rounding at all, content minus keypoint is exactly (eff - 1) / 2
+   at every position of both axes (under 1 px iff eff < 3, cf. c04_exact_step_lt_one_iff) *)
+Theorem c04_sizematcher_tie_error : forall H W mh mw r x y,
+  (0 < H)%Z -> (0 < W)%Z -> (0 < dflt H mh)%Z -> (0 < dflt W mw)%Z ->
+  sizematcher H W mh mw = Some r ->
+  zq (dflt H mh) / zq H == zq (dflt W mw) / zq W ->
+  err (sm_axis W (sm_tw r) (sm_ow r) (sm_eff r)) x == (sm_eff r - 1) / 2 /\
+  err (sm_axis H (sm_th r) (sm_oh r) (sm_eff r)) y == (sm_eff r - 1) / 2.
+Proof. exact sizematcher_tie_error. Qed.
+Print Assumptions c04_sizematcher_tie_error.
+
+Example ex_c04_sizematcher_tie_up :
+  exists r, sizematcher 48 64 (Some 96%Z) (Some 128%Z) = Some r /\
+    zq 96 / zq 48 == zq 128 / zq 64 /\
+    sm_th r = 96%Z /\ sm_tw r = 128%Z /\ sm_oh r = 96%Z /\ sm_ow r = 128%Z /\ sm_eff r == 2.
+Proof. exact ex_sizematcher_tie_up_w. Qed.
+
+Example ex_c04_sizematcher_tie_down :
+  exists r, sizematcher 120 90 (Some 40%Z) (Some 30%Z) = Some r /\
+    zq 40 / zq 120 == zq 30 / zq 90 /\
+    sm_th r = 40%Z /\ sm_tw r = 30%Z /\ sm_oh r = 40%Z /\ sm_ow r = 30%Z /\ sm_eff r == 1 # 3.
+Proof. exact ex_sizematcher_tie_down_w. Qed.
+
+(* one px off the tie on either side: the other side binds and the loose side is padded *)
+Example ex_c04_sizematcher_near_tie :
+  (exists r, sizematcher 48 64 (Some 96%Z) (Some 127%Z) = Some r /\
+     sm_th r = 95%Z /\ sm_tw r = 127%Z /\ sm_oh r = 96%Z /\ sm_eff r == 127 # 64) /\
+  (exists r, sizematcher 48 64 (Some 96%Z) (Some 129%Z) = Some r /\
+     sm_th r = 96%Z /\ sm_tw r = 128%Z /\ sm_ow r = 129%Z /\ sm_eff r == 2).
+Proof. exact ex_sizematcher_near_tie_w. Qed.
 
 (* Python's round(): within 1/2, never crosses an integer, ties to even (examples) *)
 Theorem c04_py_round_nearest : forall q,
